@@ -110,3 +110,13 @@ Theorem C02_oracle_accepts_equivalent_acls :
   forall a b, sw_equiv (rules a) (rules b) -> equiv a b = true.
 Proof. exact sw_equiv_oracle. Qed.
 Print Assumptions C02_oracle_accepts_equivalent_acls.
+
+(* The relation is not weaker than the property demands either: rule lists without repeated
+   lines that give every packet the same verdict for every matcher are sw_equiv.  Hence
+   sw_equiv is exactly "filter alike, entries inside a run of the same action in any order". *)
+From NA Require Import Cisco.IosAclTight.
+Theorem C02_same_filtering_is_sw_equiv :
+  forall a b, NoDup a -> NoDup b ->
+  (forall matches : ientry -> bool, fm_verdict matches a = fm_verdict matches b) -> sw_equiv a b.
+Proof. exact same_verdicts_sw_equiv. Qed.
+Print Assumptions C02_same_filtering_is_sw_equiv.
